@@ -697,7 +697,7 @@ class Learner1D(BaseLearner):
                 self.losses_combined[ival] = np.inf
                 x_left, x_right = ival
                 a, b = to_interpolate[-1] if to_interpolate else (None, None)
-                if b == x_left and (a, b) not in self.losses:
+                if b == x_left and b not in self.data:
                     # join (a, b) and (x_left, x_right) → (a, x_right)
                     to_interpolate[-1] = (a, x_right)
                 else:
